@@ -3,8 +3,12 @@ import gc
 import sys
 import types
 
+import re as _re
+
 from pv.core import world
 from pv.core.runner import HarnessError
+
+_ADDR = _re.compile(r"0x[0-9a-fA-F]+")  # object addresses in reprs are not behaviour
 
 RUNTIME = r'''
 LOG = []          # ordered effect log of the current run
@@ -173,7 +177,7 @@ def freeze(v, depth=0, event=False):
     if isinstance(v, (set, frozenset)):
         return ("set",) + tuple(sorted((freeze(i, depth + 1) for i in v), key=repr))
     if isinstance(v, BaseException):
-        return ("exc", type(v).__name__, str(v))
+        return ("exc", type(v).__name__, _ADDR.sub("0x", str(v)))
     if isinstance(v, types.FunctionType):
         return f"<function {v.__name__}>"
     if isinstance(v, type):
@@ -289,7 +293,7 @@ def drive(gen, driver, w):
             tr.append(("stop", freeze(e.value)))
             break
         except BaseException as e:
-            tr.append(("raised", type(e).__name__, str(e)))
+            tr.append(("raised", type(e).__name__, _ADDR.sub("0x", str(e))))
             break
     if gen is not None:
         # leave nothing suspended behind: finalise deterministically
@@ -331,13 +335,13 @@ def run(w, fn, x, driver=None, flags=frozenset()):
     except BaseException as e:
         if isinstance(e, HarnessError):
             raise
-        res = ("exc", type(e).__name__, str(e))
+        res = ("exc", type(e).__name__, _ADDR.sub("0x", str(e)))
     obs = (
         res,
         tuple(w.ns["LOG"]),
         ("o", freeze(o)) if o is not None else None,
         ("d", freeze(d)) if d is not None else None,
-        ("G", w.ns.get("G")),
+        ("G", freeze(w.ns.get("G"))),
         w.globals_diff(before),
     )
     return obs
